@@ -650,3 +650,78 @@ def gen_c08(seed, count):
 
 
 PYGEN['py_c08'] = gen_c08
+
+
+def gen_c07(seed, count):
+    """identifier allocation around the 16-bit wrap with operations left in flight on both sides of it: the counter is
+    placed (hook, only possible while no handle exists) shortly before 65535, a mix of QoS 1 / QoS 2 publishes, subscribes
+    and unsubscribes is left unacknowledged across the wrap, some are acknowledged out of order, the connection is dropped,
+    the counter is placed on or just before an identifier still in flight, the session is resumed and more operations
+    are started; refused requests (payload larger than the arena) consume identifiers in between."""
+    out = []
+    for idx in range(count):
+        r = random.Random((seed << 20) ^ idx ^ 0xC07)
+        c = Case(rx=64, tx=r.choice([256, 1152]))
+        start = r.choice([65531, 65532, 65533, 65534, 65535, 65535, 1])
+        # a fresh session restarts the counter at 1: the hook is applied between the first connection and its resumption
+        c.connect(connack(0, 0, [(33, 8)]))
+        c.drop()
+        c.setpid(start)
+        c.connect(connack(1, 0, [(33, 8)]))
+        inflight = []
+        pid = start
+
+        def nxt(p):
+            return 1 if p == 65535 else p + 1
+
+        def op(kind):
+            nonlocal pid
+            tag = bytes([97 + len(c.actions) % 26, 48 + len(c.actions) % 10])      # every operation has its own bytes
+            if kind == 0:
+                c.publish(b'a', tag, qos=1)
+            elif kind == 1:
+                c.publish(b'a', tag, qos=2)
+            elif kind == 2:
+                c.subscribe(((b't/' + tag, 0),))
+            else:
+                c.unsubscribe((b't/' + tag,))
+            # the reference allocator: the next identifier not in flight
+            while pid in [x for x, _ in inflight]:
+                pid = nxt(pid)
+            inflight.append((pid, kind))
+            pid = nxt(pid)
+
+        for _ in range(r.randint(2, 6)):
+            if len(inflight) >= 7:
+                break
+            op(r.choice([0, 0, 1, 2, 3]))
+            if r.random() < 0.25 and inflight:
+                p, k = inflight.pop(r.randrange(len(inflight)))
+                if k == 0:
+                    c.feed(ack(4, p)).poll()
+                elif k == 1:
+                    c.feed(ack(5, p, 0x80)).poll()
+                elif k == 2:
+                    c.feed(suback(p)).poll()
+                else:
+                    c.feed(suback(p, (0,), typ=11)).poll()
+            if r.random() < 0.15:
+                c.publish(b'a', b'x' * 2000, qos=1)      # refused: larger than the arena; consumes an identifier or not
+        for _ in range(r.randint(1, 2)):
+            c.drop()
+            if inflight and r.random() < 0.85:
+                tgt = r.choice(inflight)[0]
+                pid = r.choice([tgt, tgt, 65535 if tgt == 1 else tgt - 1])
+                c.setpid(pid)
+            c.connect(connack(1, 0, [(33, 8)]))
+            c.poll()
+            for _ in range(r.randint(1, 4)):
+                if len(inflight) >= 7:
+                    break
+                op(r.choice([0, 0, 1, 2, 3]))
+        c.poll()
+        out.append(c.line())
+    return out
+
+
+PYGEN['py_c07'] = gen_c07
